@@ -79,7 +79,7 @@ Section Coal.
   Qed.
 
   Lemma coal_wire_shape_lemma :
-    c_late s = false ->
+    c_broken s = false ->
     exists ts tl, c_wire s = whole fr ts ++ tl /\ NoDup ts /\
       (tl = [] \/ exists t c, ~ In t ts /\ 0 < c < length (fr t) /\ tl = tag t (firstn c (fr t)) /\
          (cur_writing (c_fpc s) t c \/
@@ -143,13 +143,13 @@ Proof.
   assert (Hnotin : ~ In t (qu ++ inflight fp)) by (intros Hin; apply Hnq; apply (ci_queued _ I); exact Hin).
   destruct l; cbn [cstep] in H.
   - destruct clg; [discriminate|]. inversion H; subst; simpl. split; [apply app_result_stable; exact Hr|reflexivity].
-  - inversion H; subst; simpl. auto.
-  - break_match H; inversion H; subst; simpl. split; [|reflexivity].
-    eapply set_pc_result_stable; [exact Hr|eassumption|]; simpl; auto.
-  - break_match H; inversion H; subst; simpl. split; [|reflexivity].
-    eapply set_pc_result_stable; [exact Hr|eassumption|]; simpl; auto.
-  - break_match H; inversion H; subst; simpl. split; [|reflexivity].
-    eapply set_pc_result_stable; [exact Hr|eassumption|]; simpl; auto.
+  - break_match H; inversion H; subst; simpl; auto.
+  - break_match H; inversion H; subst; simpl; (split; [|reflexivity]);
+      (eapply set_pc_result_stable; [exact Hr|eassumption|]; simpl; auto).
+  - break_match H; inversion H; subst; simpl; (split; [|reflexivity]);
+      (eapply set_pc_result_stable; [exact Hr|eassumption|]; simpl; auto).
+  - break_match H; inversion H; subst; simpl; (split; [|reflexivity]);
+      (eapply set_pc_result_stable; [exact Hr|eassumption|]; simpl; auto).
   - break_match H; inversion H; subst; simpl. auto.
   - destruct fp; try discriminate. destruct dl as [e|].
     + destruct has_to; [|discriminate]. inversion H; subst; simpl. split; [|reflexivity].
@@ -167,29 +167,30 @@ Proof.
     rewrite deliver_result_notin; [exact Hr|]. intros Hin. apply Hnotin. apply in_or_app. auto.
   - destruct (after_return th clg t0) as [[th' clg']|] eqn:E; [|discriminate]. inversion H; subst; simpl.
     split; [eapply after_return_result; eauto|reflexivity].
-  - break_match H; inversion H; subst; simpl. split; [|reflexivity].
-    eapply set_pc_result_stable; [exact Hr|eassumption|]; simpl; auto.
-  - break_match H; inversion H; subst; simpl. split; [|reflexivity].
-    eapply set_pc_result_stable; [exact Hr|eassumption|]; simpl; auto.
+  - break_match H; inversion H; subst; simpl; (split; [|reflexivity]);
+      (eapply set_pc_result_stable; [exact Hr|eassumption|]; simpl; auto).
+  - break_match H; inversion H; subst; simpl; (split; [|reflexivity]);
+      (eapply set_pc_result_stable; [exact Hr|eassumption|]; simpl; auto).
   - inversion H; subst; simpl. split; [apply app_result_stable; exact Hr|reflexivity].
 Qed.
 
 Lemma crun_final has_to ls : forall s s' t r,
-  cinv s -> crun has_to s ls = Some s' -> result_of (c_thr s) t = Some r ->
+  call s -> crun has_to s ls = Some s' -> result_of (c_thr s) t = Some r ->
   result_of (c_thr s') t = Some r /\ bytes_of t (c_wire s') = bytes_of t (c_wire s).
 Proof.
   unfold crun. induction ls as [|l ls IH]; intros s s' t r I H Hr; simpl in H.
   - inversion H; subst. auto.
   - destruct (cstep has_to s l) as [s1|] eqn:E; [|discriminate].
-    destruct (cstep_final _ _ _ _ _ _ I E Hr) as [Hr1 Hb1].
-    destruct (IH s1 s' t r (cinv_step _ _ _ _ I E) H Hr1) as [Hr2 Hb2]. split; [exact Hr2|congruence].
+    destruct I as [I I2]. destruct (cstep_final _ _ _ _ _ _ I E Hr) as [Hr1 Hb1].
+    destruct (IH s1 s' t r (conj (cinv_step _ _ _ _ I I2 E) (cinv2_step _ _ _ _ I I2 E)) H Hr1) as [Hr2 Hb2].
+    split; [exact Hr2|congruence].
 Qed.
 
 (* once a request has its result, the bytes of its frame on the wire never change *)
 Lemma coal_result_final_lemma has_to ls1 ls2 s1 s2 t r :
   crun has_to c_init ls1 = Some s1 -> crun has_to s1 ls2 = Some s2 -> result_of (c_thr s1) t = Some r ->
   result_of (c_thr s2) t = Some r /\ bytes_of t (c_wire s2) = bytes_of t (c_wire s1).
-Proof. intros H1 H2 Hr. eapply crun_final; eauto. eapply cinv_reachable; eauto. Qed.
+Proof. intros H1 H2 Hr. eapply crun_final; eauto. eapply call_reachable; eauto. Qed.
 
 (* leaving the select through ctx.Done() or quit: nothing of the frame is ever on the wire *)
 Lemma coal_select_exit_lemma has_to ls s t l :
@@ -198,7 +199,7 @@ Lemma coal_select_exit_lemma has_to ls s t l :
 Proof.
   intros Hrun Hin Hl. unfold crun in Hrun.
   destruct (lts_run_split _ _ _ _ _ Hin Hrun) as [ls1 [ls2 [s1 [s2 [Hls [H1 [H2 H3]]]]]]].
-  pose proof (cinv_reachable has_to ls1 s1 H1) as I1.
+  pose proof (cinv_reachable has_to ls1 s1 H1) as I1. pose proof (cinv2_reachable has_to ls1 s1 H1) as I12.
   assert (Hr : (exists e, result_of (c_thr s2) t = Some (0, Some e)) /\ bytes_of t (c_wire s2) = []).
   { destruct s1 as [th cx qu rn fp w clg can cc h tn lt br].
     assert (Hsel : pc_of th t = Some PSelect -> bytes_of t w = []).
@@ -210,7 +211,7 @@ Proof.
       break_match H2; inversion H2; subst; simpl; (split; [|auto]); eexists;
         (rewrite result_of_set_same; [reflexivity|]); eapply pc_of_lt; eauto. }
   destruct Hr as [[e Hr] Hb].
-  destruct (crun_final has_to ls2 s2 s t _ (cinv_step _ _ _ _ I1 H2) H3 Hr) as [Hr' Hb'].
+  destruct (crun_final has_to ls2 s2 s t _ (conj (cinv_step _ _ _ _ I1 I12 H2) (cinv2_step _ _ _ _ I1 I12 H2)) H3 Hr) as [Hr' Hb'].
   split; [exists e; exact Hr'|congruence].
 Qed.
 
@@ -230,4 +231,153 @@ Proof.
   - destruct (cstep has_to s l) as [s1|] eqn:E; [|discriminate].
     destruct (cstep_after_close _ _ _ _ E Hc) as [Hc1 Hw1]. destruct (IH _ _ H Hc1) as [Hc2 Hw2].
     split; [exact Hc2|congruence].
+Qed.
+
+(* ---- a context that ended while the request was still at the select ---- *)
+
+Definition c_cancelled_early (t : nat) (s : cstate) : Prop :=
+  (exists e, ctx_err (c_ctx s) t = Some e) /\
+  (pc_of (c_thr s) t = Some PSelect \/ exists e, result_of (c_thr s) t = Some (0, Some e)).
+
+Lemma c_ctx_step has_to t s l s' e :
+  cstep has_to s l = Some s' -> ctx_err (c_ctx s) t = Some e -> ctx_err (c_ctx s') t = Some e.
+Proof.
+  intros H Hc. destruct s as [th cx qu rn fp w clg can cc h tn lt br]. simpl in *.
+  destruct l; cbn [cstep] in H; try (destruct (after_return th clg t0) as [[th' clg']|]; [|discriminate]);
+    break_match H; inversion H; subst; simpl; auto using ctx_err_ctx_end.
+Qed.
+
+(* the bytes of a request that is not in the flusher's hands do not change *)
+Lemma cstep_bytes_notqueued has_to s l s' t :
+  ~ In t (c_queue s ++ inflight (c_fpc s)) -> cstep has_to s l = Some s' ->
+  bytes_of t (c_wire s') = bytes_of t (c_wire s).
+Proof.
+  intros Hnotin H. destruct s as [th cx qu rn fp w clg can cc h tn lt br]. simpl in Hnotin.
+  destruct l; cbn [cstep] in H; try (destruct (after_return th clg t0) as [[th' clg']|]; [|discriminate]);
+    try (destruct fp as [| |dn cur rest sent n|]; try discriminate);
+    break_match H; inversion H; subst; simpl; auto.
+  rewrite bytes_of_app, bytes_of_tag_other; [apply app_nil_r|].
+  intros ->. apply Hnotin. apply in_or_app. right. simpl. apply in_or_app. simpl. auto.
+Qed.
+
+Lemma c_cancelled_early_step has_to t s l s' :
+  cinv s -> cstep has_to s l = Some s' -> c_cancelled_early t s -> c_cancelled_early t s'.
+Proof.
+  intros I H [[e0 Hc] Hp]. split; [exists e0; eapply c_ctx_step; eauto|].
+  destruct Hp as [Hp|[e1 Hp]]; [|right; exists e1; eapply cstep_final; eauto].
+  destruct s as [th cx qu rn fp w clg can cc h tn lt br]. simpl in *.
+  pose proof (pc_of_lt _ _ _ Hp) as Hlt.
+  assert (Hnq : ~ In t (qu ++ inflight fp)) by (intros Hin; apply (ci_queued _ I) in Hin; simpl in Hin; congruence).
+  assert (Hother : forall t0 p0 p1, pc_of th t0 = Some p0 -> p0 <> PSelect -> pc_of (set_pc th t0 p1) t = Some PSelect).
+  { intros t0 p0 p1 H0 Hne. rewrite pc_of_set_other; [exact Hp|]. intros ->. congruence. }
+  assert (Hsel : forall t0 p1, pc_of th t0 = Some PSelect ->
+            (exists e, result_of_pc p1 = Some (0, Some e)) \/ t0 <> t ->
+            pc_of (set_pc th t0 p1) t = Some PSelect \/ exists e, result_of (set_pc th t0 p1) t = Some (0, Some e)).
+  { intros t0 p1 H0 Hor. destruct (Nat.eq_dec t0 t) as [->|Hne].
+    - right. destruct Hor as [[e He]|Hx]; [|congruence]. exists e. rewrite result_of_set_same by assumption. exact He.
+    - left. rewrite pc_of_set_other by assumption. exact Hp. }
+  assert (Hdel : forall ts rs, (forall x, In x ts -> In x (qu ++ inflight fp)) -> pc_of (deliver th ts rs) t = Some PSelect).
+  { intros ts rs Hts. rewrite deliver_pc_notin; [exact Hp|]. intros Hin. apply Hnq. auto. }
+  destruct l; cbn [cstep] in H.
+  - destruct clg; [discriminate|]. inversion H; subst; simpl. left. rewrite pc_of_app_old by assumption. exact Hp.
+  - destruct (is_ctx_err e); [|discriminate]. inversion H; subst; simpl. auto.
+  - break_match H; inversion H; subst; simpl. apply Hsel; [assumption|]. left. simpl. eauto.
+  - break_match H; inversion H; subst; simpl. apply Hsel; [assumption|]. left. simpl. eauto.
+  - (* CEnqueue: the flusher checks req.ctx.Err() when it receives the request *)
+    destruct (pc_of th t0) as [[| |c| |r| |r1|r2|r3]|] eqn:Hpc; try discriminate. destruct fp; try discriminate.
+    destruct (ctx_err cx t0) as [e|] eqn:Hct.
+    + inversion H; subst; simpl. apply Hsel; [assumption|]. left. simpl. eauto.
+    + assert (t0 <> t) by (intros ->; congruence).
+      destruct lt; inversion H; subst; simpl; (apply Hsel; [assumption|right; assumption]).
+  - break_match H; inversion H; subst; simpl; auto.
+  - destruct fp; try discriminate. destruct dl as [e|].
+    + destruct has_to; [|discriminate]. inversion H; subst; simpl. left. apply Hdel. intros x Hx. apply in_or_app. simpl. auto.
+    + destruct batch; inversion H; subst; simpl; auto.
+  - destruct fp as [| |dn cur rest sent n|]; try discriminate. break_match H; inversion H; subst; simpl. auto.
+  - destruct fp as [| |dn cur rest sent n|]; try discriminate.
+    assert (Hfin : forall e', pc_of (finish_flush th (dn ++ cur :: rest) (n + sent) e') t = Some PSelect).
+    { intros e'. unfold finish_flush. apply Hdel. intros x Hx. apply in_or_app. simpl. auto. }
+    destruct e as [x|]; [|destruct rest as [|t' rest']]; inversion H; subst; simpl; auto.
+  - destruct fp; try discriminate. destruct can; [|discriminate]. inversion H; subst; simpl. left. apply Hdel.
+    intros x Hx. apply in_or_app. auto.
+  - destruct (after_return th clg t0) as [[th' clg']|] eqn:E; [|discriminate]. inversion H; subst; simpl.
+    unfold after_return in E. break_match E; inversion E; subst; left; (eapply Hother; [eassumption|discriminate]).
+  - break_match H; inversion H; subst; simpl; left; (eapply Hother; [eassumption|discriminate]).
+  - break_match H; inversion H; subst; simpl; left; (eapply Hother; [eassumption|discriminate]).
+  - inversion H; subst; simpl. left. rewrite pc_of_app_old by assumption. exact Hp.
+Qed.
+
+Lemma c_cancelled_early_notqueued t s : cinv s -> c_cancelled_early t s -> ~ In t (c_queue s ++ inflight (c_fpc s)).
+Proof.
+  intros I [_ [Hp|[e Hr]]] Hin; apply (ci_queued s I) in Hin.
+  - congruence.
+  - eapply has_result_not_queued; eauto.
+Qed.
+
+Lemma c_cancelled_early_run has_to t ls : forall s s',
+  call s -> crun has_to s ls = Some s' -> c_cancelled_early t s -> bytes_of t (c_wire s) = [] ->
+  c_cancelled_early t s' /\ bytes_of t (c_wire s') = [].
+Proof.
+  unfold crun. induction ls as [|l ls IH]; intros s s' [I I2] H Hc Hb; simpl in H.
+  - inversion H; subst. auto.
+  - destruct (cstep has_to s l) as [s1|] eqn:E; [|discriminate].
+    apply (IH s1 s' (conj (cinv_step _ _ _ _ I I2 E) (cinv2_step _ _ _ _ I I2 E)) H).
+    + eapply c_cancelled_early_step; eauto.
+    + rewrite (cstep_bytes_notqueued _ _ _ _ t (c_cancelled_early_notqueued t s I Hc) E). exact Hb.
+Qed.
+
+(* if the context of a request ends while the request is still at the select, none of its bytes is ever written,
+   and whatever it is told is (0, some error) *)
+Lemma coal_ctx_done_lemma has_to ls1 ls2 s1 s t e :
+  crun has_to c_init ls1 = Some s1 -> pc_of (c_thr s1) t = Some PSelect ->
+  crun has_to s1 (CCtxDone t e :: ls2) = Some s ->
+  bytes_of t (c_wire s) = [] /\ forall r, result_of (c_thr s) t = Some r -> fst r = 0 /\ snd r <> None.
+Proof.
+  intros H1 Hp H2.
+  pose proof (call_reachable _ _ _ H1) as [I1 I12].
+  unfold crun in H2. simpl in H2. destruct (cstep has_to s1 (CCtxDone t e)) as [s2|] eqn:E; [|discriminate].
+  pose proof (conj (cinv_step _ _ _ _ I1 I12 E) (cinv2_step _ _ _ _ I1 I12 E)) as A2.
+  assert (Hc2 : c_cancelled_early t s2 /\ bytes_of t (c_wire s2) = []).
+  { destruct s1 as [th cx qu rn fp w clg can cc h tn lt br]. cbn [cstep] in E. destruct (is_ctx_err e); [|discriminate].
+    inversion E; subst. split; [split; simpl; [apply ctx_err_ctx_end_same|left; exact Hp]|]. simpl.
+    pose proof (ci_wire _ I1) as Hw. simpl in Hw. rewrite Hw. apply bytes_of_pieces_notin.
+    eapply (c_not_started_notin _ t PSelect I1); eauto. simpl. intros Hx. apply handed_inflight in Hx.
+    assert (Hq : pc_of th t = Some PQueued) by (apply (ci_queued _ I1); simpl; apply in_or_app; auto).
+    simpl in Hp. congruence. }
+  destruct Hc2 as [Hc2 Hb2].
+  destruct (c_cancelled_early_run has_to t ls2 s2 s A2 H2 Hc2 Hb2) as [[_ Hfin] Hb]. split; [exact Hb|].
+  intros r Hr. destruct Hfin as [Hsel|[e1 Hr1]].
+  - unfold result_of in Hr. rewrite Hsel in Hr. discriminate.
+  - rewrite Hr1 in Hr. inversion Hr; subst. simpl. split; [reflexivity|discriminate].
+Qed.
+
+(* ---- after a torn flush nothing more is written ---- *)
+
+Lemma cstep_after_torn has_to s l s' :
+  cinv2 s -> c_failed s <> None -> cstep has_to s l = Some s' -> c_failed s' <> None /\ c_wire s' = c_wire s.
+Proof.
+  intros I2 Hf H. destruct (c2_failed _ I2 Hf) as [_ [_ Hb]].
+  destruct s as [th cx qu rn fp w clg can cc h tn lt br]. simpl in Hf, Hb.
+  destruct l; cbn [cstep] in H; try (destruct (after_return th clg t) as [[th' clg']|]; [|discriminate]);
+    try (destruct fp as [| |dn cur rest sent n|]; try discriminate);
+    break_match H; inversion H; subst; simpl; auto.
+Qed.
+
+Lemma coal_after_torn_run has_to ls : forall s s',
+  call s -> c_failed s <> None -> crun has_to s ls = Some s' -> c_wire s' = c_wire s.
+Proof.
+  unfold crun. induction ls as [|l ls IH]; intros s s' [I I2] Hf H; simpl in H.
+  - inversion H; subst. reflexivity.
+  - destruct (cstep has_to s l) as [s1|] eqn:E; [|discriminate].
+    destruct (cstep_after_torn _ _ _ _ I2 Hf E) as [Hf1 Hw1].
+    rewrite <- Hw1. apply IH; [|exact Hf1|exact H].
+    split; [eapply cinv_step; eauto|eapply cinv2_step; eauto].
+Qed.
+
+Lemma coal_nothing_after_partial_lemma has_to ls1 ls2 s1 s2 :
+  crun has_to c_init ls1 = Some s1 -> c_torn s1 = true -> c_broken s1 = false ->
+  crun has_to s1 ls2 = Some s2 -> c_wire s2 = c_wire s1.
+Proof.
+  intros H1 Ht Hb H2. pose proof (call_reachable _ _ _ H1) as A.
+  eapply coal_after_torn_run; eauto. exact (c2_torn _ (proj2 A) Ht Hb).
 Qed.
